@@ -308,6 +308,35 @@ func check(scen string, in In) []*mc.Violation {
 			}
 		}
 	}
+	// the paragraph-level API must agree with the stream-level one: ConvertToParagraph gives the paragraph that Marshal
+	// writes, UnpackFromParagraph decodes it like Unmarshal does
+	var cp *control.Paragraph
+	if p, msg := mc.Guard(func() { cp, err = control.ConvertToParagraph(orig) }); p {
+		vs = append(vs, mc.V(scen, "marshal-never-panics", in, "no panic (ConvertToParagraph)", "panic: "+msg, feats...))
+	} else if err != nil {
+		vs = append(vs, mc.V(scen, "marshal-succeeds", in, "nil error (ConvertToParagraph)", err.Error(), feats...))
+	} else {
+		var b2 bytes.Buffer
+		cp.WriteTo(&b2)
+		if b2.String() != text {
+			vs = append(vs, mc.V(scen, "convert-to-paragraph-agrees-with-marshal", in, fmt.Sprintf("%q", text), fmt.Sprintf("%q", b2.String()), feats...))
+		}
+		viaPara := reflect.New(ov.Type())
+		if p, msg := mc.Guard(func() { err = control.UnpackFromParagraph(*para, viaPara.Interface()) }); p {
+			vs = append(vs, mc.V(scen, "unmarshal-returns", in, "no panic (UnpackFromParagraph)", "panic: "+msg, feats...))
+		} else if err == nil {
+			for _, n := range fieldNames {
+				if n == "Skip" {
+					continue
+				}
+				if !fieldEqual(n, ov.FieldByName(n), viaPara.Elem().FieldByName(n)) {
+					vs = append(vs, mc.V(scen, "unpack-from-paragraph-agrees-with-unmarshal", in, fmt.Sprintf("%s=%+v", n, ov.FieldByName(n).Interface()), fmt.Sprintf("%+v", viaPara.Elem().FieldByName(n).Interface()), append([]string{"field:" + n}, feats...)...))
+				}
+			}
+		} else {
+			vs = append(vs, mc.V(scen, "roundtrip-unmarshals", in, "nil error (UnpackFromParagraph)", err.Error(), feats...))
+		}
+	}
 	// unmarshal into a fresh value of the same type
 	fresh := reflect.New(ov.Type())
 	if p, msg := mc.Guard(func() { err = control.Unmarshal(fresh.Interface(), strings.NewReader(text)) }); p {
